@@ -344,6 +344,24 @@ pub fn check_case(ctx: &mut Ctx, case: &Case, cfg: &Cfg, props: &[String], want_
             .map(|st| st.lines.iter().filter(|l| l.line_type == "AsmInstruction").flat_map(|l| l.tokens.iter().map(|t| t + 1)).collect())
             .unwrap_or_default();
         rec["asmtoks"] = json!(asm);
+        // the stage snapshots of the real pipeline (small inputs only: TLC re-checks every frame)
+        let sts = stages(&base.events);
+        if want_session && sts.len() >= 8 && sts[0].kinds.len() <= 120 {
+            rec["stages"] = Value::Array(
+                sts.iter()
+                    .map(|st| {
+                        let n = st.kinds.len();
+                        json!({
+                            "stage": st.stage,
+                            "rows": (0..n).map(|i| {
+                                let f = st.fmt.get(i).copied().unwrap_or([st.ignored.contains(&i) as u32, 0, 0, 0, 0]);
+                                json!({"kind": st.kinds[i], "text": cps(&st.texts[i]), "ws": cps(&st.ws[i]), "ign": f[0] != 0, "nl": f[1], "ind": f[2], "cont": f[3], "sp": f[4]})
+                            }).collect::<Vec<_>>(),
+                        })
+                    })
+                    .collect(),
+            );
+        }
     }
     if has(props, "C01") {
         bump(&mut res, "C01");
@@ -410,7 +428,13 @@ pub fn check_case(ctx: &mut Ctx, case: &Case, cfg: &Cfg, props: &[String], want_
             for _ in 0..n {
                 bump(&mut res, "C12");
             }
-            res.viols.extend(vs);
+            let moved = moved_string_site(&base);
+            for mut v in vs {
+                if v.clause == "indentation" {
+                    v.detail.push_str(moved);
+                }
+                res.viols.push(v);
+            }
         }
     }
     let unsolved_site: String = match final_stage(&base.events) {
@@ -537,7 +561,8 @@ pub fn check_case(ctx: &mut Ctx, case: &Case, cfg: &Cfg, props: &[String], want_
         match &second.out {
             Ok(o2) if *o2 == out => {}
             Ok(o2) => {
-                let site = if has_step(&base.events, "stale_cache_hit") { " [site: re-flow reused a child-line solution cached before strings were re-indented]" } else { "" };
+                let moved = moved_string_site(&base);
+                let site = if !moved.is_empty() { moved } else if has_step(&base.events, "stale_cache_hit") { " [site: re-flow reused a child-line solution cached before strings were re-indented]" } else { "" };
                 res.viols.push(Viol { prop: "C03", clause: "idempotent", detail: format!("{}{site}", first_diff(&out, o2)) })
             }
             Err(p) => res.viols.push(Viol { prop: "C04", clause: "panic", detail: p.clone() }),
@@ -561,7 +586,8 @@ pub fn check_case(ctx: &mut Ctx, case: &Case, cfg: &Cfg, props: &[String], want_
                     bump(&mut res, "C03");
                     if let Ok(y2) = &r2.out {
                         if y2 != y1 {
-                            let site = if has_step(&r1.events, "stale_cache_hit") { " [site: re-flow reused a child-line solution cached before strings were re-indented]" } else { "" };
+                            let moved = moved_string_site(&r1);
+                            let site = if !moved.is_empty() { moved } else if has_step(&r1.events, "stale_cache_hit") { " [site: re-flow reused a child-line solution cached before strings were re-indented]" } else { "" };
                             res.viols.push(Viol { prop: "C03", clause: "idempotent", detail: format!("(after shifting the first multi-line literal of the formatted text) {}{site}", first_diff(y1, y2)) });
                         }
                     }
@@ -767,4 +793,21 @@ pub fn only_space_after_literal_differs(a: &str, b: &str) -> bool {
         }
     }
     any
+}
+
+/// A multi-line string was re-indented with the counters of the first wrap and the re-flow then gave its token other
+/// counters (the interior is not re-indented a second time).
+pub fn moved_string_site(run: &Run) -> &'static str {
+    let Some(fin) = final_stage(&run.events) else { return "" };
+    for a in step_args(&run.events, "reindent_string") {
+        if a.len() >= 3 {
+            let i = a[0] as usize;
+            if let Some(f) = fin.fmt.get(i) {
+                if f[2] as i64 != a[1] || f[3] as i64 != a[2] {
+                    return " [site: the re-flow moved a multi-line string after its interior had been re-indented]";
+                }
+            }
+        }
+    }
+    ""
 }
